@@ -477,3 +477,135 @@ Proof.
   rewrite <- (a_add_zero_l (d_type d1) (a_zero (d_type d1))) at 1 by (auto using a_zero_wt).
   rewrite (eval_sum_levels (d_type d1) (d_levels d1) (d_levels d2) [(d_root d1, d_root d2)]); auto using a_zero_wt.
 Qed.
+
+(* ====================== value indices enumerate the domain bijectively ====================== *)
+Lemma nth_flat_map_blocks {A B} (f : A -> list B) (L : nat) (da : A) (d : B) : forall (l : list A) p q,
+  (forall a, In a l -> length (f a) = L) -> p < length l -> q < L ->
+  nth (p * L + q) (flat_map f l) d = nth q (f (nth p l da)) d.
+Proof.
+  induction l as [|a l IH]; intros p q HL Hp Hq; [cbn in Hp; lia|]. cbn [flat_map].
+  assert (La : length (f a) = L) by (apply HL; left; reflexivity).
+  destruct p as [|p].
+  - cbn [Nat.mul Nat.add nth]. apply app_nth1. lia.
+  - rewrite app_nth2 by (rewrite La; nia). rewrite La. replace (S p * L + q - L) with (p * L + q) by nia.
+    cbn [nth]. apply IH; [intros x Hx; apply HL; right; exact Hx|cbn in Hp; lia|exact Hq].
+Qed.
+Lemma length_flat_map_blocks {A B} (f : A -> list B) (L : nat) (l : list A) :
+  (forall a, In a l -> length (f a) = L) -> length (flat_map f l) = length l * L.
+Proof.
+  induction l as [|a l IH]; intros HL; [reflexivity|]. cbn [flat_map length]. rewrite app_length.
+  rewrite IH by (intros x Hx; apply HL; right; exact Hx). rewrite (HL a) by (left; reflexivity). lia.
+Qed.
+
+Definition radix (maxs : list nat) : nat := fold_right Nat.mul 1 (map S maxs).
+Lemma product_ranges_length maxs : length (product_ranges maxs) = radix maxs.
+Proof.
+  induction maxs as [|m t IH]; [reflexivity|]. cbn [product_ranges]. unfold radix in *. cbn [map fold_right].
+  rewrite (length_flat_map_blocks _ (fold_right Nat.mul 1 (map S t))).
+  - rewrite seq_length. reflexivity.
+  - intros x _. rewrite map_length. exact IH.
+Qed.
+Lemma radix_pos maxs : 0 < radix maxs.
+Proof. induction maxs as [|m t IH]; unfold radix in *; cbn [map fold_right]; lia. Qed.
+
+(* plain types: the mixed-radix index is the position in domain() *)
+Theorem mixed_radix_position : forall maxs v, In v (product_ranges maxs) ->
+  mixed_radix v maxs < radix maxs /\ nth (mixed_radix v maxs) (product_ranges maxs) [] = v.
+Proof.
+  induction maxs as [|m t IH]; intros v Hv.
+  - destruct Hv as [<-|[]]. cbn. split; [lia|reflexivity].
+  - cbn [product_ranges] in Hv. apply in_flat_map in Hv as [x [Hx Hv]]. apply in_map_iff in Hv as [w [<- Hw]].
+    apply in_seq in Hx. destruct (IH w Hw) as [Hlt Hn]. cbn [mixed_radix]. fold (radix t).
+    assert (Hr : radix (m :: t) = S m * radix t) by reflexivity.
+    split; [rewrite Hr; nia|]. cbn [product_ranges].
+    rewrite (nth_flat_map_blocks _ (radix t) 0 []) ; [| |rewrite seq_length; lia|exact Hlt].
+    + rewrite seq_nth by lia. cbn [Nat.add].
+      rewrite (nth_indep _ [] (x :: [])) by (rewrite map_length, product_ranges_length; exact Hlt).
+      rewrite (map_nth (cons x)). rewrite Hn. reflexivity.
+    + intros a _. rewrite map_length. apply product_ranges_length.
+Qed.
+
+Lemma pos_list_spec x : forall l, In x l -> pos_list x l < length l /\ nth (pos_list x l) l [] = x.
+Proof.
+  induction l as [|h l IH]; intros H; [destruct H|]. cbn [pos_list].
+  destruct (a_eqb (Some x) (Some h)) eqn:E.
+  - apply a_eqb_eq in E. injection E as ->. cbn. split; [lia|reflexivity].
+  - destruct H as [->|H]; [rewrite a_eqb_refl in E; discriminate|]. destruct (IH H) as [H1 H2]. cbn [length nth]. split; [lia|exact H2].
+Qed.
+
+Theorem tally_index_position n k c v : In v (domain_valid (tally n k c)) ->
+  let s := length (single k c) in
+  tally_index n k c (Some v) < S n * s * s /\ nth (tally_index n k c (Some v)) (domain_valid (tally n k c)) [] = v.
+Proof.
+  intros Hv s. rewrite domain_valid_tally_eq in *.
+  apply in_flat_map in Hv as [n' [Hn Hv]]. apply in_flat_map in Hv as [w [Hw Hv]]. apply in_map_iff in Hv as [wo [<- Hwo]].
+  apply in_seq in Hn. pose proof Hw as Hw'. pose proof Hwo as Hwo'.
+  apply single_spec in Hw' as [Lw _]. apply single_spec in Hwo' as [Lwo _].
+  destruct (pos_list_spec w (single k c) Hw) as [Pw Nw]. destruct (pos_list_spec wo (single k c) Hwo) as [Pwo Nwo].
+  unfold tally_index. fold (single k c). fold s. cbn [hd skipn].
+  assert (E1 : firstn c (w ++ wo) = w) by (rewrite firstn_app, Lw, Nat.sub_diag, firstn_all2 by lia; cbn; apply app_nil_r).
+  assert (E2 : firstn c (skipn c (w ++ wo)) = wo).
+  { rewrite skipn_app, Lw, Nat.sub_diag, skipn_all2 by lia. cbn [app skipn]. apply firstn_all2. lia. }
+  rewrite E1, E2. fold s in Pw, Pwo. split; [nia|].
+  set (inner := fun n0 => flat_map (fun w0 => map (fun wo0 => n0 :: w0 ++ wo0) (single k c)) (single k c)).
+  assert (Linner : forall n0, length (inner n0) = s * s).
+  { intros n0. unfold inner. rewrite (length_flat_map_blocks _ s); [reflexivity|]. intros a _. apply map_length. }
+  replace (n' * s * s + pos_list w (single k c) * s + pos_list wo (single k c))
+    with (n' * (s * s) + (pos_list w (single k c) * s + pos_list wo (single k c))) by nia.
+  change (flat_map (fun n'0 => flat_map (fun w0 => map (fun wo0 => n'0 :: w0 ++ wo0) (single k c)) (single k c)) (seq 0 (S n)))
+    with (flat_map inner (seq 0 (S n))).
+  rewrite (nth_flat_map_blocks inner (s * s) 0 []); [|intros a _; apply Linner|rewrite seq_length; lia|nia].
+  rewrite seq_nth by lia. cbn [Nat.add]. unfold inner.
+  rewrite (nth_flat_map_blocks _ s [] []); [|intros a _; apply map_length|exact Pw|exact Pwo].
+  rewrite Nw. rewrite (nth_indep _ [] ((fun wo0 => n' :: w ++ wo0) [])) by (rewrite map_length; exact Pwo).
+  rewrite (map_nth (fun wo0 => n' :: w ++ wo0)), Nwo. reflexivity.
+Qed.
+
+Lemma domain_valid_tally_length n k c : length (domain_valid (tally n k c)) = S n * length (single k c) * length (single k c).
+Proof.
+  rewrite domain_valid_tally_eq. rewrite (length_flat_map_blocks _ (length (single k c) * length (single k c))).
+  - rewrite seq_length. lia.
+  - intros a _. rewrite (length_flat_map_blocks _ (length (single k c))); [reflexivity|]. intros b _. apply map_length.
+Qed.
+
+Lemma a_index_tally n k c x : a_index (tally n k c) x = tally_index n k c x.
+Proof. reflexivity. Qed.
+
+(* well-formed value types (the two families the code has) *)
+Definition wf_type (t : atype) : Prop := (exists maxs, t = plain maxs) \/ (exists n k c, t = tally n k c).
+
+(* C10: value indices enumerate the domain bijectively (and therefore agree with equality) *)
+Theorem index_bijective t : wf_type t ->
+  NoDup (domain t) /\
+  (forall x, In x (domain t) -> a_index t x < length (domain t) /\ nth (a_index t x) (domain t) None = x) /\
+  (forall v, inb t v = true <-> In (Some v) (domain t)).
+Proof.
+  intros [[maxs ->]|[n [k [c ->]]]].
+  - split; [apply domain_nodup_of, domain_valid_plain_nodup|]. split.
+    + intros x Hx. unfold domain in *. rewrite app_length, map_length. cbn [length].
+      unfold domain_valid, plain in *. cbn [a_tally a_max] in *. apply in_app_or in Hx as [Hx|[<-|[]]].
+      * apply in_map_iff in Hx as [v [<- Hv]]. destruct (mixed_radix_position maxs v Hv) as [H1 H2].
+        unfold a_index. cbn [a_tally a_max]. rewrite product_ranges_length. split; [lia|].
+        rewrite app_nth1 by (rewrite map_length, product_ranges_length; exact H1).
+        rewrite (nth_indep _ None (Some [])) by (rewrite map_length, product_ranges_length; exact H1).
+        rewrite (map_nth (@Some (list nat))), H2. reflexivity.
+      * unfold a_index. cbn [a_tally a_max]. fold (radix maxs). rewrite product_ranges_length. split; [lia|].
+        rewrite app_nth2 by (rewrite map_length, product_ranges_length; lia). rewrite map_length, product_ranges_length, Nat.sub_diag. reflexivity.
+    + intros v. rewrite <- domain_valid_plain_spec. unfold domain. rewrite in_app_iff, in_map_iff. split.
+      * intros H. left. exists v. split; [reflexivity|exact H].
+      * intros [[w [E H]]|[E|[]]]; [injection E as ->; exact H|discriminate].
+  - split; [apply domain_nodup_of, domain_valid_tally_nodup|]. split.
+    + intros x Hx. unfold domain in *. rewrite app_length, map_length. cbn [length]. apply in_app_or in Hx as [Hx|[<-|[]]].
+      * apply in_map_iff in Hx as [v [<- Hv]]. destruct (tally_index_position n k c v Hv) as [H1 H2].
+        rewrite a_index_tally, domain_valid_tally_length. split; [lia|].
+        rewrite app_nth1 by (rewrite map_length, domain_valid_tally_length; exact H1).
+        rewrite (nth_indep _ None (Some [])) by (rewrite map_length, domain_valid_tally_length; exact H1).
+        rewrite (map_nth (@Some (list nat))), H2. reflexivity.
+      * rewrite a_index_tally. unfold tally_index. fold (single k c).
+        rewrite domain_valid_tally_length. split; [lia|].
+        rewrite app_nth2 by (rewrite map_length, domain_valid_tally_length; lia).
+        rewrite map_length, domain_valid_tally_length, Nat.sub_diag. reflexivity.
+    + intros v. rewrite <- domain_valid_tally_spec. unfold domain. rewrite in_app_iff, in_map_iff. split.
+      * intros H. left. exists v. split; [reflexivity|exact H].
+      * intros [[w [E H]]|[E|[]]]; [injection E as ->; exact H|discriminate].
+Qed.
